@@ -1,13 +1,26 @@
 (* C14_inline_proofs.v — C14 (f): replacing spreads  ...F  (without directives) of a fragment F by the
    typed inline fragment  ... on T { selections of F }  (T = F's type condition), for any number of the
    spreads of F, anywhere in the document ([inline_doc F d d']); the definition of F stays.
-   Hypotheses: F is a definition of d, the only one with its name, without directives of its own,
-   and F does not (transitively) spread itself. *)
+   [inline_side F d]: F is a definition of d, the only one with its name, without directives of its own,
+   not on a cycle of spreads.  Then
+     - every rule except NoUnusedFragments and field merging is invariant               violated_inline
+     - field merging is invariant when moreover T and the type conditions of the inline fragments of d
+       are types of the schema ([inline_merge_side])                                      violated_inline_merge
+     - NoUnusedFragments: only F itself can become unused                 violated_inline_no_unused_fragments
+     - accept / reject is invariant when F is still used after the rewrite               spec_valid_inline
+   The hypotheses are needed: inline_unused_cex, inline_fragment_directives_cex,
+   inline_undeclared_type_cex (the last one with a schema that is not well-formed).
+   Method: the selections / annotation events of d and d' cover each other (an event of a copy of F's
+   selections has a twin in the definition of F, in an environment that agrees on what the rules read);
+   what is collected over the fragments reachable in the spread graph is the same on both sides
+   (AbsGraph, AbsDfs); for field merging the pairwise condition is compared at equal fuel, the fuel of the
+   specification is immaterial on documents without cycles (C05_frag_spec), and duplicates in the collected
+   sets are harmless because a field merges with itself when all selection sets of the document merge. *)
 From GT Require Import Visitor Validate Merge.
 From Coq Require Import Permutation.
 From GTS Require Import Annot WfSchema SpecCollect SpecRules SpecValues SpecMerge SpecValid.
 From GTP Require Import VisitorFacts TraceFacts C14_proofs C14_more_proofs C14_wrap_proofs.
-From GTP Require C06_graph_proofs.
+From GTP Require C06_graph_proofs C05_merge_proofs C05_frag_spec C05_frag_annot C05_frag_global.
 
 (* ------------------------------------------------------------------ the rewrite *)
 Section Rel.
@@ -514,6 +527,218 @@ Section AbsDfs.
       + intros x Hx. apply (incl_fields _ _ H), Hx.
   Qed.
 End AbsDfs.
+
+(* ------------------------------------------------------------------ the same with a relation between what is
+   collected on the two sides *)
+Section AbsGraphR.
+  Variables (E E' : name -> name -> Prop) (Fn : name).
+  Hypothesis E_fwd : forall a b, E a b -> b <> Fn -> E' a b.
+  Hypothesis E_bwd : forall a b, E' a b -> E a b \/ (E a Fn /\ E Fn b).
+  Hypothesis E_copy : forall a, E a Fn -> E' a Fn \/ (forall b, E Fn b -> E' a b).
+  Hypothesis E_noself : ~ E Fn Fn.
+  Context {X Y : Type}.
+  Variable RX : X -> Y -> Prop.
+  Variables (P0 : list X) (P0' : list Y) (L L' : list name) (pay : name -> list X) (pay' : name -> list Y).
+  Hypothesis L_fwd : forall b, In b L -> b <> Fn -> In b L'.
+  Hypothesis L_bwd : forall b, In b L' -> In b L \/ (In Fn L /\ E Fn b).
+  Hypothesis L_copy : In Fn L -> In Fn L' \/ ((forall b, E Fn b -> In b L') /\ (forall x, In x (pay Fn) -> exists y, In y P0' /\ RX x y)).
+  Hypothesis P0_fwd : forall x, In x P0 -> exists y, In y P0' /\ RX x y.
+  Hypothesis P0_bwd : forall y, In y P0' -> (exists x, In x P0 /\ RX x y) \/ (In Fn L /\ exists x, In x (pay Fn) /\ RX x y).
+  Hypothesis pay_fwd' : forall n x, In x (pay n) -> exists y, In y (pay' n) /\ RX x y.
+  Hypothesis pay_bwd' : forall n y, In y (pay' n) -> (exists x, In x (pay n) /\ RX x y) \/ (E n Fn /\ exists x, In x (pay Fn) /\ RX x y).
+  Hypothesis pay_copy' : forall n, E n Fn ->
+    E' n Fn \/ ((forall b, E Fn b -> E' n b) /\ (forall x, In x (pay Fn) -> exists y, In y (pay' n) /\ RX x y)).
+
+  Lemma afrom_fwdR x : afrom E L x -> x <> Fn -> afrom E' L' x.
+  Proof.
+    intros (a & Ha & Hr) Hx. destruct (string_dec a Fn) as [Ea|Na].
+    - subst a. inversion Hr as [|? c ? Hc Hp]; subst; [contradiction Hx; reflexivity|].
+      destruct (L_copy Ha) as [H|[H _]].
+      + exists Fn. split; [exact H|apply (rch_fwd E E' Fn E_fwd E_copy); assumption].
+      + exists c. split; [apply H, Hc|apply (rch_fwd E E' Fn E_fwd E_copy); assumption].
+    - exists a. split; [apply L_fwd; assumption|apply (rch_fwd E E' Fn E_fwd E_copy); assumption].
+  Qed.
+
+  Lemma atotal_fwd x : (In x P0 \/ exists n, afrom E L n /\ In x (pay n)) ->
+    exists y, RX x y /\ (In y P0' \/ exists n, afrom E' L' n /\ In y (pay' n)).
+  Proof.
+    intros [H|(n & Hn & Hx)].
+    - destruct (P0_fwd x H) as (y & Hy & Hr). exists y. split; [exact Hr|left; exact Hy].
+    - destruct (string_dec n Fn) as [En|Nn].
+      + subst n. destruct (afrom_F E Fn E_noself L Hn) as [HL|(m & Hm & Hfm & He)].
+        * destruct (L_copy HL) as [H1|[_ H1]].
+          -- destruct (pay_fwd' Fn x Hx) as (y & Hy & Hr). exists y. split; [exact Hr|right]. exists Fn.
+             split; [exists Fn; split; [exact H1|apply rch_refl]|exact Hy].
+          -- destruct (H1 x Hx) as (y & Hy & Hr). exists y. split; [exact Hr|left; exact Hy].
+        * pose proof (afrom_fwdR m Hfm Hm) as Hfm'.
+          destruct (pay_copy' m He) as [H1|[_ H1]].
+          -- destruct (pay_fwd' Fn x Hx) as (y & Hy & Hr). exists y. split; [exact Hr|right]. exists Fn. split; [|exact Hy].
+             destruct Hfm' as (a & Ha & Hra). exists a. split; [exact Ha|eapply rch_snoc; eassumption].
+          -- destruct (H1 x Hx) as (y & Hy & Hr). exists y. split; [exact Hr|right]. exists m. split; assumption.
+      + destruct (pay_fwd' n x Hx) as (y & Hy & Hr). exists y. split; [exact Hr|right]. exists n. split; [|exact Hy].
+        apply (afrom_fwdR n Hn Nn).
+  Qed.
+  Lemma atotal_bwd y : (In y P0' \/ exists n, afrom E' L' n /\ In y (pay' n)) ->
+    exists x, RX x y /\ (In x P0 \/ exists n, afrom E L n /\ In x (pay n)).
+  Proof.
+    intros [H|(n & Hn & Hy)].
+    - destruct (P0_bwd y H) as [(x & Hx & Hr)|[H1 (x & Hx & Hr)]]; exists x; (split; [exact Hr|]); [left; exact Hx|right].
+      exists Fn. split; [exists Fn; split; [exact H1|apply rch_refl]|exact Hx].
+    - pose proof (afrom_bwd E E' Fn E_bwd L L' L_bwd n Hn) as Hn0.
+      destruct (pay_bwd' n y Hy) as [(x & Hx & Hr)|[H1 (x & Hx & Hr)]]; exists x; (split; [exact Hr|right]).
+      + exists n. split; assumption.
+      + exists Fn. split; [|exact Hx]. destruct Hn0 as (a & Ha & Hra). exists a. split; [exact Ha|eapply rch_snoc; eassumption].
+  Qed.
+End AbsGraphR.
+
+Section AbsDfsR.
+  Context {X : Type}.
+  Variable RX : X -> X -> Prop.
+  Variables body body' : name -> option (list (atom X)).
+  Variable Fn : name.
+  Let NB := nbody body Fn.
+
+  Inductive ratomsR : list (atom X) -> list (atom X) -> Prop :=
+  | rr_nil : ratomsR [] []
+  | rr_field x y l l' : RX x y -> ratomsR l l' -> ratomsR (AField x :: l) (AField y :: l')
+  | rr_spread n l l' : ratomsR l l' -> ratomsR (ASpread n :: l) (ASpread n :: l')
+  | rr_expand l l' : ratomsR l l' -> ratomsR (ASpread Fn :: l) (NB ++ l').
+  Lemma ratomsR_app a a' b b' : ratomsR a a' -> ratomsR b b' -> ratomsR (a ++ b) (a' ++ b').
+  Proof.
+    induction 1; intro Hb; cbn [app]; [exact Hb|constructor; auto|constructor; auto|].
+    rewrite <- app_assoc. apply rr_expand. auto.
+  Qed.
+  Lemma ratomsR_flat_map {A} (R : A -> A -> Prop) (g g' : A -> list (atom X)) l l' :
+    Forall2 R l l' -> (forall x y, In x l -> R x y -> ratomsR (g x) (g' y)) -> ratomsR (flat_map g l) (flat_map g' l').
+  Proof.
+    intros H Hg. induction H as [|x y l l' Hxy _ IH]; cbn [flat_map]; [constructor|].
+    apply ratomsR_app; [apply Hg; [left; reflexivity|exact Hxy]|]. apply IH. intros a b Ha. apply Hg. right. exact Ha.
+  Qed.
+
+  Hypothesis RX_refl : forall x, In x (afields NB) -> RX x x.
+
+  Lemma rr_succs_fwd A A' b : ratomsR A A' -> In b (succs A) -> b <> Fn -> In b (succs A').
+  Proof.
+    intros H. induction H as [|x y l l' _ _ IH|n l l' _ IH|l l' _ IH]; intros Hb Hne.
+    - exact Hb.
+    - apply IH; assumption.
+    - destruct Hb as [<-|Hb]; [left; reflexivity|right; apply IH; assumption].
+    - destruct Hb as [<-|Hb]; [contradiction Hne; reflexivity|]. rewrite succs_app. apply in_app_iff. right. apply IH; assumption.
+  Qed.
+  Lemma rr_succs_bwd A A' b : ratomsR A A' -> In b (succs A') -> In b (succs A) \/ (In Fn (succs A) /\ In b (succs NB)).
+  Proof.
+    intros H. induction H as [|x y l l' _ _ IH|n l l' _ IH|l l' _ IH]; intro Hb.
+    - destruct Hb.
+    - apply IH, Hb.
+    - destruct Hb as [<-|Hb]; [left; left; reflexivity|]. destruct (IH Hb) as [H1|[H1 H2]]; [left; right; exact H1|].
+      right. split; [right; exact H1|exact H2].
+    - rewrite succs_app in Hb. apply in_app_iff in Hb. destruct Hb as [Hb|Hb].
+      + right. split; [left; reflexivity|exact Hb].
+      + destruct (IH Hb) as [H1|[H1 H2]]; [left; right; exact H1|]. right. split; [right; exact H1|exact H2].
+  Qed.
+  Lemma rr_copy A A' : ratomsR A A' -> In Fn (succs A) -> In Fn (succs A') \/ incl NB A'.
+  Proof.
+    intros H. induction H as [|x y l l' _ _ IH|n l l' _ IH|l l' _ IH]; intro Hb.
+    - destruct Hb.
+    - destruct (IH Hb) as [H1|H1]; [left; exact H1|right; intros a Ha; right; apply H1, Ha].
+    - destruct Hb as [<-|Hb]; [left; left; reflexivity|].
+      destruct (IH Hb) as [H1|H1]; [left; right; exact H1|right; intros a Ha; right; apply H1, Ha].
+    - right. intros a Ha. apply in_app_iff. left. exact Ha.
+  Qed.
+  Lemma rr_fields_fwd A A' x : ratomsR A A' -> In x (afields A) -> exists y, In y (afields A') /\ RX x y.
+  Proof.
+    intros H. induction H as [|x0 y0 l l' Hxy _ IH|n l l' _ IH|l l' _ IH]; intro Hk.
+    - destruct Hk.
+    - destruct Hk as [<-|Hk]; [exists y0; split; [left; reflexivity|exact Hxy]|].
+      destruct (IH Hk) as (y & Hy & Hr). exists y. split; [right; exact Hy|exact Hr].
+    - apply IH, Hk.
+    - destruct (IH Hk) as (y & Hy & Hr). exists y. split; [|exact Hr]. rewrite afields_app. apply in_app_iff. right. exact Hy.
+  Qed.
+  Lemma rr_fields_bwd A A' y : ratomsR A A' -> In y (afields A') ->
+    (exists x, In x (afields A) /\ RX x y) \/ (In Fn (succs A) /\ exists x, In x (afields NB) /\ RX x y).
+  Proof.
+    intros H. induction H as [|x0 y0 l l' Hxy _ IH|n l l' _ IH|l l' _ IH]; intro Hk.
+    - destruct Hk.
+    - destruct Hk as [<-|Hk]; [left; exists x0; split; [left; reflexivity|exact Hxy]|].
+      destruct (IH Hk) as [(x & Hx & Hr)|H1]; [left; exists x; split; [right; exact Hx|exact Hr]|right; exact H1].
+    - destruct (IH Hk) as [H1|[H1 H2]]; [left; exact H1|right; split; [right; exact H1|exact H2]].
+    - rewrite afields_app in Hk. apply in_app_iff in Hk. destruct Hk as [Hk|Hk].
+      + right. split; [left; reflexivity|]. exists y. split; [exact Hk|apply RX_refl, Hk].
+      + destruct (IH Hk) as [H1|[H1 H2]]; [left; exact H1|right; split; [right; exact H1|exact H2]].
+  Qed.
+  Lemma incl_afields (a b : list (atom X)) : incl a b -> incl (afields a) (afields b).
+  Proof.
+    intros H x Hx. unfold afields in *. apply in_flat_map in Hx. destruct Hx as (w & Hw & Hx).
+    apply in_flat_map. exists w. split; [apply H, Hw|exact Hx].
+  Qed.
+
+  Hypothesis Hbody : forall n, ratomsR (nbody body n) (nbody body' n).
+  Hypothesis Hself : ~ In Fn (succs NB).
+  Variables U U' : list name.
+  Hypothesis HU : forall n b, body n = Some b -> In n U.
+  Hypothesis HU' : forall n b, body' n = Some b -> In n U'.
+
+  Theorem dfs_cover fuel fuel' A A' :
+    unvisited U [] < fuel -> unvisited U' [] < fuel' -> ratomsR A A' ->
+    (forall x, In x (fst (dfs body fuel A [])) -> exists y, In y (fst (dfs body' fuel' A' [])) /\ RX x y) /\
+    (forall y, In y (fst (dfs body' fuel' A' [])) -> exists x, In x (fst (dfs body fuel A [])) /\ RX x y).
+  Proof.
+    intros Hf Hf' HA.
+    destruct (dfs_spec body U HU fuel A [] Hf) as (news & _ & _ & _ & Hreach & Hitems).
+    destruct (dfs_spec body' U' HU' fuel' A' [] Hf') as (news' & _ & _ & _ & Hreach' & Hitems').
+    assert (Hk : forall (bd : name -> option (list (atom X))) res B nw,
+               Permutation res (afields B ++ flat_map (fun n => afields (nbody bd n)) nw) ->
+               (forall m, In m nw <-> reach bd [] (succs B) m) ->
+               forall z, In z res <-> (In z (afields B) \/ exists n, afrom (Eb bd) (succs B) n /\ In z (afields (nbody bd n)))).
+    { intros bd res B nw Hp Hr z. split.
+      - intro Hz. eapply Permutation_in in Hz; [|exact Hp]. apply in_app_iff in Hz. destruct Hz as [Hz|Hz]; [left; exact Hz|right].
+        apply in_flat_map in Hz. destruct Hz as (n & Hn & Hz). exists n. split; [apply reach_afrom, Hr, Hn|exact Hz].
+      - intro Hz. eapply Permutation_in; [apply Permutation_sym, Hp|]. apply in_app_iff. destruct Hz as [Hz|(n & Hn & Hz)]; [left; exact Hz|right].
+        apply in_flat_map. exists n. split; [apply Hr, reach_afrom, Hn|exact Hz]. }
+    assert (E1 : forall a b, Eb body a b -> b <> Fn -> Eb body' a b).
+    { intros a b Hab Hne. unfold Eb, nsucc in *. apply (rr_succs_fwd _ _ b (Hbody a) Hab Hne). }
+    assert (E2 : forall a b, Eb body' a b -> Eb body a b \/ (Eb body a Fn /\ Eb body Fn b)).
+    { intros a b Hab. unfold Eb, nsucc in *. apply (rr_succs_bwd _ _ b (Hbody a) Hab). }
+    assert (E3 : forall a, Eb body a Fn -> Eb body' a Fn \/ (forall b, Eb body Fn b -> Eb body' a b)).
+    { intros a Ha. unfold Eb, nsucc in *. destruct (rr_copy _ _ (Hbody a) Ha) as [H|H]; [left; exact H|right].
+      intros b Hb. apply (incl_succs _ _ H), Hb. }
+    assert (L3 : In Fn (succs A) -> In Fn (succs A') \/
+                 ((forall b, Eb body Fn b -> In b (succs A')) /\
+                  (forall x, In x (afields (nbody body Fn)) -> exists y, In y (afields A') /\ RX x y))).
+    { intro Hb. destruct (rr_copy _ _ HA Hb) as [H|H]; [left; exact H|right]. split.
+      - intros b Hb'. apply (incl_succs _ _ H), Hb'.
+      - intros x Hx. exists x. split; [apply (incl_afields _ _ H), Hx|apply RX_refl, Hx]. }
+    assert (P3 : forall n, Eb body n Fn -> Eb body' n Fn \/
+                 ((forall b, Eb body Fn b -> Eb body' n b) /\
+                  (forall x, In x (afields (nbody body Fn)) -> exists y, In y (afields (nbody body' n)) /\ RX x y))).
+    { intros n Hn. unfold Eb, nsucc in *. destruct (rr_copy _ _ (Hbody n) Hn) as [H|H]; [left; exact H|right]. split.
+      - intros b Hb. apply (incl_succs _ _ H), Hb.
+      - intros x Hx. exists x. split; [apply (incl_afields _ _ H), Hx|apply RX_refl, Hx]. }
+    assert (L1 : forall b, In b (succs A) -> b <> Fn -> In b (succs A')) by (intro b; apply rr_succs_fwd, HA).
+    assert (L2 : forall b, In b (succs A') -> In b (succs A) \/ (In Fn (succs A) /\ Eb body Fn b))
+      by (intro b; apply rr_succs_bwd, HA).
+    assert (F1 : forall x, In x (afields A) -> exists y, In y (afields A') /\ RX x y) by (intro x; apply rr_fields_fwd, HA).
+    assert (F2 : forall y, In y (afields A') -> (exists x, In x (afields A) /\ RX x y) \/
+                                               (In Fn (succs A) /\ exists x, In x (afields (nbody body Fn)) /\ RX x y))
+      by (intro y; apply rr_fields_bwd, HA).
+    assert (PF : forall n x, In x (afields (nbody body n)) -> exists y, In y (afields (nbody body' n)) /\ RX x y)
+      by (intros n x; apply rr_fields_fwd, Hbody).
+    assert (PB : forall n y, In y (afields (nbody body' n)) -> (exists x, In x (afields (nbody body n)) /\ RX x y) \/
+                             (Eb body n Fn /\ exists x, In x (afields (nbody body Fn)) /\ RX x y))
+      by (intros n y; apply rr_fields_bwd, Hbody).
+    split.
+    - intros x Hx. apply (Hk body _ A news Hitems Hreach) in Hx.
+      assert (G : exists y, RX x y /\ (In y (afields A') \/ exists n, afrom (Eb body') (succs A') n /\ In y (afields (nbody body' n)))).
+      { eapply (atotal_fwd (Eb body) (Eb body') Fn) with (pay := fun n => afields (nbody body n)) (L := succs A) (P0 := afields A);
+          first [exact E1|exact E2|exact E3|exact Hself|exact L1|exact L2|exact L3|exact F1|exact F2|exact PF|exact PB|exact P3|exact Hx]. }
+      destruct G as (y & Hr & Hy). exists y. split; [apply (Hk body' _ A' news' Hitems' Hreach'), Hy|exact Hr].
+    - intros y Hy. apply (Hk body' _ A' news' Hitems' Hreach') in Hy.
+      assert (G : exists x, RX x y /\ (In x (afields A) \/ exists n, afrom (Eb body) (succs A) n /\ In x (afields (nbody body n)))).
+      { eapply (atotal_bwd (Eb body) (Eb body') Fn) with (pay' := fun n => afields (nbody body' n)) (L' := succs A') (P0' := afields A');
+          first [exact E1|exact E2|exact E3|exact Hself|exact L1|exact L2|exact L3|exact F1|exact F2|exact PF|exact PB|exact P3|exact Hy]. }
+      destruct G as (x & Hr & Hx). exists x. split; [apply (Hk body _ A news Hitems Hreach), Hx|exact Hr].
+  Qed.
+End AbsDfsR.
 
 (* ------------------------------------------------------------------ the document *)
 Section Doc.
@@ -1799,7 +2024,200 @@ Section Doc.
     destruct (o_kind o); try reflexivity. destruct (root s OpSubscription) as [t|]; [|reflexivity].
     unfold spec_collect. apply (spec_collect_inl t _ _ Hs).
   Qed.
+  (* ---------------------------------------------------------------- field merging *)
+  Hypothesis HT : is_some (type_by_name s T) = true.
+
+  Definition rcfi (c c' : cfield) : Prop :=
+    cf_parent c = cf_parent c' /\ isel F (cf_field c) (cf_field c') /\ is_field_sel (cf_field c) = true.
+  Notation bC := (bodyC s d).
+  Notation bC' := (bodyC s d').
+
+  Lemma NBc_eq : nbody bC Fn = flat_map (flatC s (type_by_name s T)) (fr_sels F).
+  Proof. unfold nbody, bodyC. rewrite find_fragment_F. reflexivity. Qed.
+  Lemma inl_parent_T p : inl_parent s (Some T) p = type_by_name s T.
+  Proof. unfold inl_parent. cbn [opt_bind]. destruct (type_by_name s T); [reflexivity|discriminate HT]. Qed.
+
+  Lemma flatC_ratoms x : forall y p, isel F x y -> ratomsR rcfi bC Fn (flatC s p x) (flatC s p y).
+  Proof.
+    induction x as [q al n args dirs sp sels IH|q n dirs|q tc dirs sp sels IH] using selection_ind'; intros y p Hxy.
+    - destruct (isel_field_inv _ _ _ _ _ _ _ _ Hxy) as (sels' & -> & Hs). cbn [flatC].
+      constructor; [|constructor]. split; [reflexivity|split; [exact Hxy|reflexivity]].
+    - destruct (isel_spread_inv _ _ _ _ Hxy) as [->|(-> & -> & p' & ->)]; cbn [flatC].
+      + constructor. constructor.
+      + rewrite inl_parent_T, <- NBc_eq. rewrite <- (app_nil_r (nbody bC Fn)). apply rr_expand. constructor.
+    - destruct (isel_inline_inv _ _ _ _ _ _ Hxy) as (sels' & -> & Hs). cbn [flatC].
+      apply (ratomsR_flat_map rcfi bC Fn (isel F)); [exact Hs|]. intros c c' Hc Hcc. rewrite Forall_forall in IH. apply (IH c Hc c' _ Hcc).
+  Qed.
+  Lemma flatC_list_ratoms p l l' : isels F l l' ->
+    ratomsR rcfi bC Fn (flat_map (flatC s p) l) (flat_map (flatC s p) l').
+  Proof. intro H. apply (ratomsR_flat_map rcfi bC Fn (isel F)); [exact H|]. intros x y _. apply flatC_ratoms. Qed.
+  Lemma bodyC_ratoms n : ratomsR rcfi bC Fn (nbody bC n) (nbody bC' n).
+  Proof.
+    unfold nbody, bodyC. destruct (find_fragment_inl n) as [f f' Hf|]; [|constructor].
+    destruct (ifrag_fields _ _ _ Hf) as (_ & _ & Htc & _ & _ & Hs). rewrite <- Htc. apply flatC_list_ratoms, Hs.
+  Qed.
+  Lemma afields_flatC p l c : In c (afields (flat_map (flatC s p) l)) -> is_field_sel (cf_field c) = true.
+  Proof.
+    assert (G : forall x p, In c (afields (flatC s p x)) -> is_field_sel (cf_field c) = true).
+    { intro x. induction x as [q al n args dirs sp sels IH|q n dirs|q tc dirs sp sels IH] using selection_ind'; intro p0; cbn [flatC].
+      - intros [<-|[]]. reflexivity.
+      - intros [].
+      - intro H. unfold afields in H. rewrite C06_graph_proofs.flat_map_flat_map in H. apply in_flat_map in H.
+        destruct H as (z & Hz & H). rewrite Forall_forall in IH. apply (IH z Hz _ H). }
+    intro H. unfold afields in H. rewrite C06_graph_proofs.flat_map_flat_map in H. apply in_flat_map in H.
+    destruct H as (x & _ & H). apply (G x p H).
+  Qed.
+  Lemma succs_flatC p l n : In n (succs (flat_map (flatC s p) l)) -> In n (spreads_in l).
+  Proof.
+    assert (G : forall x p, In n (succs (flatC s p x)) -> In n (spreads_in [x])).
+    { intro x. induction x as [q al m args dirs sp sels IH|q m dirs|q tc dirs sp sels IH] using selection_ind'; intro p0; cbn [flatC].
+      - intros [].
+      - intros [<-|[]]. left. reflexivity.
+      - intro H. unfold succs in H. rewrite C06_graph_proofs.flat_map_flat_map in H.
+        apply in_flat_map in H. destruct H as (c & Hc & H). rewrite Forall_forall in IH.
+        eapply spreads_child; [exact Hc|]. apply (IH c Hc (inl_parent s tc p0)). exact H. }
+    intro H. unfold succs in H. rewrite C06_graph_proofs.flat_map_flat_map in H. apply in_flat_map in H.
+    destruct H as (x & Hx & H). apply (spreads_in_one l x Hx), (G x p), H.
+  Qed.
+
+  Definition covers2 (A B : list cfield) : Prop :=
+    (forall x, In x A -> exists y, In y B /\ rcfi x y) /\ (forall y, In y B -> exists x, In x A /\ rcfi x y).
+
+  Lemma collected_cover p l l' : isels F l l' -> covers2 (collected s d p l) (collected s d' p l').
+  Proof.
+    intro H. unfold collected, set_fuel. rewrite !collect_set_flat.
+    apply (dfs_cover rcfi bC bC' Fn) with (U := frag_names d) (U' := frag_names d'); try apply flatC_list_ratoms, H.
+    - intros x Hx. rewrite NBc_eq in Hx. split; [reflexivity|]. split; [apply isel_refl|apply (afields_flatC _ _ _ Hx)].
+    - apply bodyC_ratoms.
+    - rewrite NBc_eq. intro Hn. apply no_self_spread, (succs_flatC _ _ _ Hn).
+    - apply (bodyC_U s d).
+    - apply (bodyC_U s d').
+    - pose proof (filter_length_all (fun k => negb (mem_name k [])) (frag_names d)) as Hl. unfold unvisited, frag_names in *.
+      rewrite map_length in Hl. lia.
+    - pose proof (filter_length_all (fun k => negb (mem_name k [])) (frag_names d')) as Hl. unfold unvisited, frag_names in *.
+      rewrite map_length in Hl. lia.
+  Qed.
+
+  Lemma rcfi_fields c c' : rcfi c c' ->
+    cf_def c = cf_def c' /\ cf_key c = cf_key c' /\ sel_name (cf_field c) = sel_name (cf_field c') /\
+    sel_args (cf_field c) = sel_args (cf_field c') /\ isels F (sel_sels (cf_field c)) (sel_sels (cf_field c')).
+  Proof.
+    intros (Hp & Hi & Hf). destruct (isel_cases F _ _ Hi) as [(q & q' & E & _)|[Hs Hl]]; [rewrite E in Hf; discriminate|].
+    destruct (same_head_fields _ _ Hs) as (_ & Hn & Ha & _ & Hk & _). unfold cf_def, cf_key. rewrite Hp, Hn. repeat split; assumption.
+  Qed.
+  Lemma sub_set_cover c c' : rcfi c c' -> covers2 (sub_set s d c) (sub_set s d' c').
+  Proof.
+    intro H. destruct (rcfi_fields c c' H) as (Hdef & _ & _ & _ & Hs). unfold sub_set. rewrite <- Hdef. apply collected_cover, Hs.
+  Qed.
+  Lemma level_ok_inl m a a' b b' : rcfi a a' -> rcfi b b' -> C05_frag_spec.level_ok s m a b = C05_frag_spec.level_ok s m a' b'.
+  Proof.
+    intros Ha Hb. destruct (rcfi_fields a a' Ha) as (Hd1 & _ & Hn1 & Ha1 & _). destruct (rcfi_fields b b' Hb) as (Hd2 & _ & Hn2 & Ha2 & _).
+    unfold C05_frag_spec.level_ok, parents_exclusive. rewrite (proj1 Ha), (proj1 Hb), Hd1, Hd2, Hn1, Hn2, Ha1, Ha2. reflexivity.
+  Qed.
+  Lemma pe_inl a a' b b' : rcfi a a' -> rcfi b b' -> parents_exclusive a b = parents_exclusive a' b'.
+  Proof. intros Ha Hb. unfold parents_exclusive. rewrite (proj1 Ha), (proj1 Hb). reflexivity. Qed.
+
+  (* the pairwise condition, with the same fuel on both sides *)
+  Lemma fcm_inl : forall n m a a' b b', rcfi a a' -> rcfi b b' ->
+    fields_can_merge n s d m a b = fields_can_merge n s d' m a' b'.
+  Proof.
+    induction n as [|n IH]; intros m a a' b b' Ha Hb; [reflexivity|].
+    apply bool_iff_eq. rewrite !C05_frag_spec.fcm_true_iff, <- (level_ok_inl m a a' b b' Ha Hb), <- (pe_inl a a' b b' Ha Hb).
+    destruct (sub_set_cover a a' Ha) as [A1 A2]. destruct (sub_set_cover b b' Hb) as [B1 B2].
+    split; intros [H1 H2]; (split; [exact H1|]).
+    - intros x' y' Hx' Hy' Hk. destruct (A2 x' Hx') as (x & Hx & Rx). destruct (B2 y' Hy') as (y & Hy & Ry).
+      rewrite <- (IH _ x x' y y' Rx Ry). apply H2; [exact Hx|exact Hy|].
+      destruct (rcfi_fields x x' Rx) as (_ & -> & _). destruct (rcfi_fields y y' Ry) as (_ & -> & _). exact Hk.
+    - intros x y Hx Hy Hk. destruct (A1 x Hx) as (x' & Hx' & Rx). destruct (B1 y Hy) as (y' & Hy' & Ry).
+      rewrite (IH _ x x' y y' Rx Ry). apply H2; [exact Hx'|exact Hy'|].
+      destruct (rcfi_fields x x' Rx) as (_ & <- & _). destruct (rcfi_fields y y' Ry) as (_ & <- & _). exact Hk.
+  Qed.
 End Doc.
+
+(* ---- the fuel of the specification, on documents without fragment cycles ---- *)
+Lemma fcm_fuel_eq s dd : (forall u, ~ C06_graph_proofs.cyc dd u) -> forall x y m n,
+  In (cf_field x) (C05_frag_spec.F0 dd) -> merge_fuel_spec dd <= n ->
+  fields_can_merge n s dd m x y = fields_can_merge (merge_fuel_spec dd) s dd m x y.
+Proof.
+  intros Hac x y m n Hx Hn. destruct (fields_can_merge n s dd m x y) eqn:E.
+  - symmetry. apply (C05_frag_spec.fcm_anti s dd _ n m x y Hn E).
+  - symmetry. apply (C05_frag_spec.fcm_fuel_ok s dd Hac x y m n Hx E).
+Qed.
+
+Lemma pairs_within_idx {A} (l : list A) : forall i j x y, i < j -> nth_error l i = Some x -> nth_error l j = Some y ->
+  In (x, y) (pairs_within l).
+Proof.
+  induction l as [|a l IH]; intros i j x y Hij Hi Hj; [destruct i; discriminate|].
+  rewrite pairs_within_cons. apply in_app_iff. destruct i as [|i].
+  - cbn in Hi. injection Hi as ->. destruct j as [|j]; [lia|]. cbn in Hj. left. apply in_map, (nth_error_In _ _ Hj).
+  - destruct j as [|j]; [lia|]. right. apply (IH i j); [lia|exact Hi|exact Hj].
+Qed.
+
+Lemma parents_exclusive_refl x : parents_exclusive x x = false.
+Proof. unfold parents_exclusive. destruct (cf_parent x) as [[]|]; try reflexivity. rewrite name_eqb_refl. reflexivity. Qed.
+
+(* all selection sets of dd merge *)
+Definition all_merge (s : sdocument) (dd : document) : Prop :=
+  forall ps, In ps (selection_sets s dd) -> fields_in_set_can_merge s dd (collected s dd (fst ps) (snd ps)) = true.
+Lemma all_merge_iff s dd : v_overlapping_fields s dd = false <-> all_merge s dd.
+Proof.
+  unfold v_overlapping_fields, all_merge. split.
+  - intros H ps Hps. destruct (fields_in_set_can_merge s dd (collected s dd (fst ps) (snd ps))) eqn:E; [reflexivity|].
+    assert (existsb (fun ps => negb (fields_in_set_can_merge s dd (collected s dd (fst ps) (snd ps)))) (selection_sets s dd) = true).
+    { apply existsb_exists. exists ps. split; [exact Hps|rewrite E; reflexivity]. }
+    congruence.
+  - intro H. destruct (existsb _ (selection_sets s dd)) eqn:E; [|reflexivity]. apply existsb_exists in E.
+    destruct E as (ps & Hps & Hbad). rewrite (H ps Hps) in Hbad. discriminate.
+Qed.
+
+Lemma fisc_pair s dd set u v : fields_in_set_can_merge s dd set = true ->
+  forall i j, nth_error set i = Some u -> nth_error set j = Some v -> i <> j ->
+  name_eqb (cf_key u) (cf_key v) = true -> fields_can_merge (merge_fuel_spec dd) s dd false u v = true.
+Proof.
+  intros H i j Hi Hj Hij Hk. unfold fields_in_set_can_merge in H. rewrite forallb_forall in H.
+  destruct (Nat.lt_ge_cases i j) as [Hlt|Hge].
+  - apply (H (u, v)). unfold same_key_pairs. apply filter_In. split; [apply (pairs_within_idx set i j); assumption|exact Hk].
+  - rewrite fcm_sym. apply (H (v, u)). unfold same_key_pairs. apply filter_In.
+    split; [apply (pairs_within_idx set j i); [lia|assumption|assumption]|]. cbn [fst snd]. rewrite name_eqb_sym. exact Hk.
+Qed.
+
+Section SelfCompat.
+  Variables (s : sdocument) (dd : document).
+  Hypothesis Hac : forall u, ~ C06_graph_proofs.cyc dd u.
+  Hypothesis Hkn : C05_frag_annot.inline_conditions_known s dd = true.
+  Hypothesis Hok : all_merge s dd.
+
+  Lemma FE_F0 x : In x (C05_frag_annot.FE s dd) -> In (cf_field x) (C05_frag_spec.F0 dd).
+  Proof. intro H. rewrite <- (C05_frag_annot.FE_fields s dd). apply in_map, H. Qed.
+
+  (* two members of a collected set of the document, at any fuel *)
+  Lemma set_pair_ok n : (forall x, In x (C05_frag_annot.FE s dd) -> fields_can_merge n s dd false x x = true) ->
+    forall P sels u v, In (P, sels) (C05_frag_annot.EE s dd) ->
+    In u (collected s dd P sels) -> In v (collected s dd P sels) -> name_eqb (cf_key u) (cf_key v) = true ->
+    fields_can_merge n s dd false u v = true.
+  Proof.
+    intros Hself P sels u v HE Hu Hv Hk.
+    pose proof (C05_frag_global.collected_FE s dd Hkn P sels u HE Hu) as Uu.
+    destruct (In_nth_error _ _ Hu) as (i & Hi). destruct (In_nth_error _ _ Hv) as (j & Hj).
+    destruct (Nat.eq_dec i j) as [E|N].
+    - subst j. rewrite Hi in Hj. injection Hj as <-. apply Hself, Uu.
+    - assert (Hset : fields_in_set_can_merge s dd (collected s dd P sels) = true).
+      { apply (Hok (P, sels)). rewrite C05_frag_annot.selection_sets_struct. exact HE. }
+      pose proof (fisc_pair s dd _ u v Hset i j Hi Hj N Hk) as H.
+      destruct (Nat.le_ge_cases n (merge_fuel_spec dd)) as [Hle|Hge].
+      + apply (C05_frag_spec.fcm_anti s dd n _ false u v Hle H).
+      + rewrite (fcm_fuel_eq s dd Hac u v false n (FE_F0 u Uu) Hge). exact H.
+  Qed.
+
+  Lemma self_compat : forall n x, In x (C05_frag_annot.FE s dd) -> fields_can_merge n s dd false x x = true.
+  Proof.
+    induction n as [|n IH]; intros x Hx; [reflexivity|].
+    apply C05_frag_spec.fcm_true_iff. split; [apply C05_frag_global.level_ok_refl|]. intros u v Hu Hv Hk.
+    rewrite parents_exclusive_refl. cbn [orb].
+    change (sub_set s dd x) with (collected s dd (C05_frag_annot.sub_parent s x) (sel_sels (cf_field x))) in Hu, Hv.
+    apply (set_pair_ok n IH _ _ u v (C05_frag_annot.FE_sub s dd x Hx) Hu Hv Hk).
+  Qed.
+End SelfCompat.
 
 (* ------------------------------------------------------------------ all rules but field merging *)
 (* F is a definition of d, the only one with its name, has no directives, and does not spread itself *)
@@ -1848,6 +2266,234 @@ Proof.
   - eapply i_no_unused_fragments_mono; eassumption.
   - eapply i_no_unused_fragments; eassumption.
 Qed.
+
+(* ------------------------------------------------------------------ field merging *)
+(* if all selection sets of d1 merge, so do those of d2, provided every collected set of d2 is covered by
+   one of d1 with the pairwise condition preserved *)
+Lemma merge_transfer s d1 d2 (Rel : cfield -> cfield -> Prop) :
+  (forall u, ~ C06_graph_proofs.cyc d1 u) -> C05_frag_annot.inline_conditions_known s d1 = true ->
+  (forall u, ~ C06_graph_proofs.cyc d2 u) ->
+  (forall x x' y y' n, Rel x x' -> Rel y y' -> fields_can_merge n s d1 false x y = fields_can_merge n s d2 false x' y') ->
+  (forall x x', Rel x x' -> cf_key x = cf_key x') ->
+  (forall ps2, In ps2 (selection_sets s d2) -> exists ps1, In ps1 (selection_sets s d1) /\
+      forall y, In y (collected s d2 (fst ps2) (snd ps2)) -> exists x, In x (collected s d1 (fst ps1) (snd ps1)) /\ Rel x y) ->
+  all_merge s d1 -> all_merge s d2.
+Proof.
+  intros Hac1 Hkn1 Hac2 Hfcm Hkey Hcov Hok [P2 l2] Hps2. cbn [fst snd].
+  destruct (Hcov _ Hps2) as ([P1 l1] & Hps1 & Hc). cbn [fst snd] in Hc.
+  rewrite C05_frag_annot.selection_sets_struct in Hps1, Hps2.
+  unfold fields_in_set_can_merge. apply forallb_forall. intros [x' y'] Hxy. unfold same_key_pairs in Hxy.
+  apply filter_In in Hxy. destruct Hxy as [Hxy Hk]. cbn [fst snd] in *.
+  apply C05_merge_proofs.pairs_within_In in Hxy. destruct Hxy as [Hx' Hy'].
+  destruct (Hc x' Hx') as (x & Hx & Rx). destruct (Hc y' Hy') as (y & Hy & Ry).
+  set (N := Nat.max (merge_fuel_spec d1) (merge_fuel_spec d2)).
+  assert (HF0 : In (cf_field x') (C05_frag_spec.F0 d2)).
+  { apply (C05_frag_spec.collected_below s d2 P2 l2 x' (C05_frag_annot.EE_indoc s d2 P2 l2 Hps2) Hx'). }
+  rewrite <- (fcm_fuel_eq s d2 Hac2 x' y' false N HF0) by (unfold N; lia).
+  rewrite <- (Hfcm x x' y y' N Rx Ry).
+  apply (set_pair_ok s d1 Hac1 Hkn1 Hok N (self_compat s d1 Hac1 Hkn1 Hok N) P1 l1 x y Hps1 Hx Hy).
+  rewrite (Hkey x x' Rx), (Hkey y y' Ry). exact Hk.
+Qed.
+
+Section MergeMain.
+  Variable F : fragment_def.
+  Variables (s : sdocument) (d d' : document).
+  Hypothesis Hd : inline_doc F d d'.
+  Hypothesis HF : In F (fragments_of d).
+  Hypothesis Hone : forall f, In f (fragments_of d) -> fr_name f = fr_name F -> f = F.
+  Hypothesis HT : is_some (type_by_name s (fr_tc F)) = true.
+  Hypothesis Hacyc : forall u, ~ C06_graph_proofs.cyc d u.
+  Hypothesis Hknown : C05_frag_annot.inline_conditions_known s d = true.
+
+  Lemma Hself0 : ~ C06_graph_proofs.cyc d (fr_name F).
+  Proof. apply Hacyc. Qed.
+  Lemma Hacyc' : forall u, ~ C06_graph_proofs.cyc d' u.
+  Proof. intros u H. apply (Hacyc u). apply (cyc_inl F d d' Hd HF Hone Hself0 u), H. Qed.
+  Lemma Hknown' : C05_frag_annot.inline_conditions_known s d' = true.
+  Proof.
+    unfold C05_frag_annot.inline_conditions_known in *. rewrite forallb_forall in *. intros v Hv.
+    destruct (dcov_bwd F d d' Hd HF Hone Hself0 v Hv) as (u & Hu & Huv). specialize (Hknown u Hu).
+    destruct (isel_cases F u v Huv) as [(p & p' & -> & ->)|[Hs _]]; [exact HT|].
+    destruct u, v; cbn in Hs; try contradiction; try reflexivity. destruct Hs as (_ & <- & _). exact Hknown.
+  Qed.
+
+  Lemma F_def_in_d : In (DFrag F) d.
+  Proof.
+    unfold fragments_of in HF. apply in_flat_map in HF. destruct HF as ([o|f] & Hx & Hin); [destruct Hin|].
+    destruct Hin as [<-|[]]. exact Hx.
+  Qed.
+
+  (* the selection sets of the two documents *)
+  Lemma sets_fwd ps : In ps (selection_sets s d) ->
+    exists ps', In ps' (selection_sets s d') /\ fst ps = fst ps' /\ isels F (snd ps) (snd ps').
+  Proof.
+    unfold selection_sets. intro Hin. apply in_flat_map in Hin. destruct Hin as ([ev e] & Hea & Hin).
+    destruct (proj1 (cov_document F d d' Hd s) _ Hea) as ([ev' e'] & Hb & Hab).
+    cbn [fst snd] in Hin. destruct ev as [n|n]; [|destruct Hin]. destruct n; try contradiction. destruct Hin as [<-|[]].
+    destruct Hab as [[Hev He]|(u & v & _ & [[Hu _]|[Hu _]] & _)]; cbn [fst snd] in *; try discriminate. subst e'.
+    inversion Hev as [n n' Hn|]; subst. inversion Hn as [| | |? l l' Hl| | | |? Hs]; subst; [|discriminate].
+    exists (a_parent e, l'). split; [|split; [reflexivity|exact Hl]].
+    apply in_flat_map. exists (Enter (NSelectionSet sp l'), e). split; [exact Hb|left; reflexivity].
+  Qed.
+  Lemma sets_bwd ps' : In ps' (selection_sets s d') ->
+    exists ps, In ps (selection_sets s d) /\ fst ps = fst ps' /\ isels F (snd ps) (snd ps').
+  Proof.
+    unfold selection_sets. intro Hin. apply in_flat_map in Hin. destruct Hin as ([ev' e'] & Hb & Hin).
+    cbn [fst snd] in Hin. destruct ev' as [n'|n']; [|destruct Hin]. destruct n'; try contradiction. destruct Hin as [<-|[]].
+    destruct (proj2 (cov_document F d d' Hd s) _ Hb) as [([ev e] & Ha & Hab)|[([ev e] & Ha & Hab) _]].
+    - destruct Hab as [[Hev He]|(u & v & _ & [[_ Hv]|[_ Hv]] & _)]; cbn [fst snd] in *; try discriminate. subst e'.
+      inversion Hev as [n n' Hn|]; subst. inversion Hn as [| | |? l l' Hl| | | |? Hs]; subst.
+      + exists (a_parent e, l). split; [|split; [reflexivity|exact Hl]].
+        apply in_flat_map. exists (Enter (NSelectionSet sp l), e). split; [exact Ha|left; reflexivity].
+      + exists (a_parent e, items). split; [|split; [reflexivity|apply isels_refl]].
+        apply in_flat_map. exists (Enter (NSelectionSet sp items), e). split; [exact Ha|left; reflexivity].
+    - destruct Hab as (Hev & (_ & _ & Hp) & _). cbn [fst snd] in *. subst ev.
+      exists (a_parent e, items). split; [|split; [cbn [fst]; exact Hp|apply isels_refl]].
+      apply in_flat_map. exists (Enter (NSelectionSet sp items), e). split; [|left; reflexivity].
+      apply (def_in_annot d s (DFrag F)); [exact F_def_in_d|apply body_in_def, Ha].
+  Qed.
+
+  Theorem i_overlapping_fields : v_overlapping_fields s d = v_overlapping_fields s d'.
+  Proof.
+    assert (A : all_merge s d -> all_merge s d').
+    { apply (merge_transfer s d d' (rcfi F) Hacyc Hknown Hacyc').
+      - intros x x' y y' n Rx Ry. apply (fcm_inl F d d' Hd HF Hone Hself0 s HT n false x x' y y' Rx Ry).
+      - intros x x' R. apply (rcfi_fields F x x' R).
+      - intros ps' Hps'. destruct (sets_bwd ps' Hps') as (ps & Hps & Hp & Hl). exists ps. split; [exact Hps|].
+        rewrite <- Hp. apply (collected_cover F d d' Hd HF Hone Hself0 s HT (fst ps) _ _ Hl). }
+    assert (B : all_merge s d' -> all_merge s d).
+    { apply (merge_transfer s d' d (fun x' x => rcfi F x x') Hacyc' Hknown' Hacyc).
+      - intros x' x y' y n Rx Ry. symmetry. apply (fcm_inl F d d' Hd HF Hone Hself0 s HT n false x x' y y' Rx Ry).
+      - intros x' x R. symmetry. apply (rcfi_fields F x x' R).
+      - intros ps Hps. destruct (sets_fwd ps Hps) as (ps' & Hps' & Hp & Hl). exists ps'. split; [exact Hps'|].
+        rewrite <- Hp. apply (collected_cover F d d' Hd HF Hone Hself0 s HT (fst ps) _ _ Hl). }
+    destruct (v_overlapping_fields s d) eqn:E1, (v_overlapping_fields s d') eqn:E2; try reflexivity.
+    - apply all_merge_iff, B, all_merge_iff in E2. congruence.
+    - apply all_merge_iff, A, all_merge_iff in E1. congruence.
+  Qed.
+End MergeMain.
+
+(* ------------------------------------------------------------------ all rules *)
+(* field merging needs, in addition: the type condition of F is a type of the schema, and so are the type
+   conditions of the inline fragments of d *)
+Definition inline_merge_side (F : fragment_def) (s : sdocument) (d : document) : Prop :=
+  is_some (type_by_name s (fr_tc F)) = true /\ C05_frag_annot.inline_conditions_known s d = true.
+
+Theorem violated_inline_merge : forall F s d d', inline_doc F d d' -> inline_side F d -> inline_merge_side F s d ->
+  violated R_OverlappingFieldsCanBeMerged s d = violated R_OverlappingFieldsCanBeMerged s d'.
+Proof.
+  intros F s d d' Hd (HF & Hone & Hself & Hdirs) (HT & Hkn). cbn [violated].
+  rewrite <- (i_no_fragment_cycles F d d' Hd HF Hone Hself).
+  destruct (v_no_fragment_cycles d) eqn:E; [reflexivity|]. cbn [negb andb].
+  apply (i_overlapping_fields F s d d' Hd HF Hone HT); [|exact Hkn].
+  intros u Hu. assert (H : v_no_fragment_cycles d = true) by (apply C06_graph_proofs.cycles_spec; exists u; exact Hu). congruence.
+Qed.
+
+Lemma rule_id_eq_dec (a b : rule_id) : {a = b} + {a <> b}.
+Proof. decide equality. Qed.
+
+Theorem violated_inline_all : forall F r s d d', inline_doc F d d' -> inline_side F d -> inline_merge_side F s d ->
+  r <> R_NoUnusedFragments -> violated r s d = violated r s d'.
+Proof.
+  intros F r s d d' Hd Hside Hm Hr.
+  destruct (rule_id_eq_dec r R_OverlappingFieldsCanBeMerged) as [->|Hne]; [apply violated_inline_merge with (F := F); assumption|].
+  apply violated_inline with (F := F); assumption.
+Qed.
+
+(* accept / reject: F must stay in use (else NoUnusedFragments reports it) *)
+Theorem spec_valid_inline : forall F s d d', inline_doc F d d' -> inline_side F d -> inline_merge_side F s d ->
+  In (fr_name F) (reachable_from_operations d') ->
+  spec_valid s d = spec_valid s d'.
+Proof.
+  intros F s d d' Hd Hside Hm Hused. unfold spec_valid. apply forallb_ext_in. intros r _. f_equal.
+  destruct (rule_id_eq_dec r R_NoUnusedFragments) as [->|Hne].
+  - apply (violated_inline_no_unused_fragments F s d d' Hd Hside), Hused.
+  - apply violated_inline_all with (F := F); assumption.
+Qed.
+(* without that: a document accepted after the rewrite was accepted before, and a document rejected before
+   is rejected after *)
+Theorem spec_valid_inline_mono : forall F s d d', inline_doc F d d' -> inline_side F d -> inline_merge_side F s d ->
+  spec_valid s d' = true -> spec_valid s d = true.
+Proof.
+  intros F s d d' Hd Hside Hm H. unfold spec_valid in *. rewrite forallb_forall in *. intros r Hr. specialize (H r Hr).
+  destruct (rule_id_eq_dec r R_NoUnusedFragments) as [->|Hne].
+  - destruct (violated R_NoUnusedFragments s d) eqn:E; [|reflexivity].
+    rewrite (proj1 (violated_inline_no_unused_fragments F s d d' Hd Hside) E) in H. discriminate.
+  - rewrite (violated_inline_all F r s d d' Hd Hside Hm Hne). exact H.
+Qed.
+
+(* ------------------------------------------------------------------ examples and counterexamples *)
+Definition ix_spread (n : name) : selection := SSpread cx_z n [].
+Definition ix_sub (n : name) (l : list selection) : selection := SField cx_z None n [] [] (cx_z, cx_z) l.
+Definition ix_q (n : name) (vars : list vardef) (l : list selection) : definition :=
+  DOp (mkOperation OpQuery cx_z (Some n) vars [] (cx_z, cx_z) l).
+Definition ix_copy (F : fragment_def) : selection := SInline cx_z (Some (fr_tc F)) [] (fr_span F) (fr_sels F).
+Definition ix_F : fragment_def := mkFragment cx_z "F" "T" [] (cx_z, cx_z) [cx_field "a"].
+
+Lemma ix_rel F q1 q2 v l r : inline_doc F ([ix_q q1 v [ix_sub "t" (ix_spread (fr_name F) :: l)]; ix_q q2 v [ix_sub "t" [ix_spread (fr_name F)]]] ++ r)
+                                         ([ix_q q1 v [ix_sub "t" (ix_copy F :: l)]; ix_q q2 v [ix_sub "t" [ix_spread (fr_name F)]]] ++ r).
+Proof.
+  assert (R : forall x, idef F x x).
+  { intros [o|f]; constructor; [destruct o|destruct f]; constructor; apply isels_refl. }
+  constructor; [|constructor; [apply R|induction r; constructor; [apply R|assumption]]].
+  constructor. constructor. constructor; [|constructor]. constructor. constructor; [apply IExpand|apply isels_refl].
+Qed.
+
+(* F used twice, one spread replaced: nothing changes *)
+Example inline_example :
+  let d := [ix_q "Q" [] [ix_sub "t" [ix_spread "F"]]; ix_q "R" [] [ix_sub "t" [ix_spread "F"]]; DFrag ix_F] in
+  let d' := [ix_q "Q" [] [ix_sub "t" [ix_copy ix_F]]; ix_q "R" [] [ix_sub "t" [ix_spread "F"]]; DFrag ix_F] in
+  inline_doc ix_F d d' /\ spec_valid cx_schema d = true /\ spec_valid cx_schema d' = true.
+Proof. split; [apply (ix_rel ix_F "Q" "R" [] [] [DFrag ix_F])|split; vm_compute; reflexivity]. Qed.
+
+(* the only spread of F replaced: F is unused afterwards *)
+Lemma inline_unused_cex :
+  let d := [ix_q "Q" [] [ix_sub "t" [ix_spread "F"]]; DFrag ix_F] in
+  let d' := [ix_q "Q" [] [ix_sub "t" [ix_copy ix_F]]; DFrag ix_F] in
+  inline_doc ix_F d d' /\ spec_valid cx_schema d = true /\ spec_valid cx_schema d' = false /\
+  violated R_NoUnusedFragments cx_schema d' = true.
+Proof.
+  split; [|repeat split; vm_compute; reflexivity].
+  assert (R : forall x, idef ix_F x x).
+  { intros [o|f]; constructor; [destruct o|destruct f]; constructor; apply isels_refl. }
+  constructor; [|constructor; [apply R|constructor]].
+  constructor. constructor. constructor; [|constructor]. constructor. constructor; [apply IExpand|constructor].
+Qed.
+
+(* a directive on the definition of F that uses a variable: after the rewrite the operation no longer uses it *)
+Definition ix_Fd : fragment_def :=
+  mkFragment cx_z "F" "T" [mkDirective cx_z "skip" [("if", VVar "v")]] (cx_z, cx_z) [cx_field "a"].
+Definition ix_v : vardef := mkVardef cx_z "v" (TNamed "Boolean") None.
+Lemma inline_fragment_directives_cex :
+  let d := [ix_q "Q" [ix_v] [ix_sub "t" [ix_spread "F"]]; ix_q "R" [ix_v] [ix_sub "t" [ix_spread "F"]]; DFrag ix_Fd] in
+  let d' := [ix_q "Q" [ix_v] [ix_sub "t" [ix_copy ix_Fd]]; ix_q "R" [ix_v] [ix_sub "t" [ix_spread "F"]]; DFrag ix_Fd] in
+  inline_doc ix_Fd d d' /\
+  violated R_NoUnusedVariables cx_schema d = false /\ violated R_NoUnusedVariables cx_schema d' = true.
+Proof. split; [apply (ix_rel ix_Fd "Q" "R" [ix_v] [] [DFrag ix_Fd])|split; vm_compute; reflexivity]. Qed.
+
+(* the type condition of F is not a type of the schema (here an introspection type name, which KnownTypeNames
+   accepts): the inline fragment falls back to the enclosing type, the spread does not.  The schema of this
+   example is not well-formed (O does not implement I correctly); with a well-formed schema no example is known *)
+Definition ix_schemaI : sdocument :=
+  [SDType (TDInterface "I" [] [mkFD "a" [] (TNamed "String")]);
+   SDType (TDObject "O" ["I"] [mkFD "a" [] (TNamed "Int")]);
+   SDType (TDObject "Query" [] [mkFD "t" [] (TNamed "I")]); SDType (TDScalar "String"); SDType (TDScalar "Int")].
+Definition ix_Fi : fragment_def := mkFragment cx_z "F" "__Type" [] (cx_z, cx_z) [cx_field "a"].
+Lemma inline_undeclared_type_cex :
+  let l := [SInline cx_z (Some "O") [] (cx_z, cx_z) [cx_field "a"]] in
+  let d := [ix_q "Q" [] [ix_sub "t" (ix_spread "F" :: l)]; ix_q "R" [] [ix_sub "t" [ix_spread "F"]]; DFrag ix_Fi] in
+  let d' := [ix_q "Q" [] [ix_sub "t" (ix_copy ix_Fi :: l)]; ix_q "R" [] [ix_sub "t" [ix_spread "F"]]; DFrag ix_Fi] in
+  inline_doc ix_Fi d d' /\ type_by_name ix_schemaI "__Type" = None /\
+  spec_valid ix_schemaI d = true /\ spec_valid ix_schemaI d' = false /\
+  violated R_OverlappingFieldsCanBeMerged ix_schemaI d' = true.
+Proof.
+  split; [apply (ix_rel ix_Fi "Q" "R" [] _ [DFrag ix_Fi])|repeat split; vm_compute; reflexivity].
+Qed.
+
 (* TAIL *)
 Print Assumptions violated_inline.
 Print Assumptions violated_inline_no_unused_fragments.
+Print Assumptions violated_inline_merge.
+Print Assumptions violated_inline_all.
+Print Assumptions spec_valid_inline.
+Print Assumptions spec_valid_inline_mono.
